@@ -139,4 +139,100 @@ theorem find_erase_ne (k k' : String) (l : List (String × α)) (hne : k' ≠ k)
       · simp [h3]
       · simp [h3]; exact ih
 
+/-! ### key order -/
+
+/-- strictly increasing keys (in particular: no duplicate keys) -/
+def Sorted (l : List (String × α)) : Prop := l.Pairwise (fun a b => a.1 < b.1)
+
+theorem lt_of_ne_of_not_lt {a b : String} (h : a ≠ b) (h2 : ¬ a < b) : b < a :=
+  Std.lt_of_le_of_ne (String.not_lt.mp h2) (Ne.symm h)
+
+theorem sorted_nil : Sorted ([] : List (String × α)) := List.Pairwise.nil
+
+theorem sorted_erase (k : String) (l : List (String × α)) (h : Sorted l) : Sorted (erase k l) :=
+  List.Pairwise.filter _ h
+
+theorem sorted_mapV (f : α → β) (l : List (String × α)) (h : Sorted l) : Sorted (mapV f l) :=
+  List.Pairwise.map _ (fun _ _ hab => hab) h
+
+theorem mem_insert_key (k : String) (v : α) (l : List (String × α)) (p : String × α)
+    (h : p ∈ insert k v l) : p.1 = k ∨ p ∈ l := by
+  induction l with
+  | nil => simp [insert] at h; exact Or.inl (by rw [h])
+  | cons q t ih =>
+    obtain ⟨k', v'⟩ := q
+    simp only [insert] at h
+    by_cases hk : k = k'
+    · simp [hk] at h
+      rcases h with h | h
+      · exact Or.inl (by rw [h, hk])
+      · exact Or.inr (List.mem_cons_of_mem _ h)
+    · by_cases h2 : k < k'
+      · simp [hk, h2] at h
+        rcases h with h | h | h
+        · exact Or.inl (by rw [h])
+        · exact Or.inr (by rw [h]; simp)
+        · exact Or.inr (List.mem_cons_of_mem _ h)
+      · simp [hk, h2] at h
+        rcases h with h | h
+        · exact Or.inr (by rw [h]; simp)
+        · rcases ih h with h | h
+          · exact Or.inl h
+          · exact Or.inr (List.mem_cons_of_mem _ h)
+
+theorem sorted_insert (k : String) (v : α) (l : List (String × α)) (h : Sorted l) : Sorted (insert k v l) := by
+  induction l with
+  | nil => simp [insert, Sorted]
+  | cons q t ih =>
+    obtain ⟨k', v'⟩ := q
+    have h' := List.pairwise_cons.mp h
+    obtain ⟨h1, h2⟩ := h'
+    simp only [insert]
+    by_cases hk : k = k'
+    · subst hk
+      simp only [if_true]
+      exact List.pairwise_cons.mpr ⟨h1, h2⟩
+    · by_cases hlt : k < k'
+      · simp only [hk, hlt, if_false, if_true]
+        refine List.pairwise_cons.mpr ⟨?_, h⟩
+        intro b hb
+        rcases List.mem_cons.mp hb with hb | hb
+        · rw [hb]; exact hlt
+        · exact String.lt_trans hlt (h1 b hb)
+      · simp only [hk, hlt, if_false]
+        refine List.pairwise_cons.mpr ⟨?_, ih h2⟩
+        intro b hb
+        rcases mem_insert_key k v t b hb with hb | hb
+        · rw [hb]; exact lt_of_ne_of_not_lt hk hlt
+        · exact h1 b hb
+
+theorem find_some_mem (k : String) (v : α) (l : List (String × α)) (h : find k l = some v) : (k, v) ∈ l := by
+  induction l with
+  | nil => simp [find] at h
+  | cons p t ih =>
+    obtain ⟨k', v'⟩ := p
+    simp only [find] at h
+    by_cases hk : k = k'
+    · simp [hk] at h; subst hk; subst h; simp
+    · simp [hk] at h; exact List.mem_cons_of_mem _ (ih h)
+
+/-- writing the value a key already has changes nothing (needs the key order) -/
+theorem insert_same (k : String) (v : α) (l : List (String × α)) (hs : Sorted l) (h : find k l = some v) :
+    insert k v l = l := by
+  induction l with
+  | nil => simp [find] at h
+  | cons q t ih =>
+    obtain ⟨k', v'⟩ := q
+    obtain ⟨h1, h2⟩ := List.pairwise_cons.mp hs
+    simp only [find] at h
+    simp only [insert]
+    by_cases hk : k = k'
+    · subst hk; simp at h; subst h; simp
+    · simp only [hk, if_false] at h ⊢
+      have hmem := find_some_mem k v t h
+      have hlt : k' < k := h1 (k, v) hmem
+      have hnlt : ¬ k < k' := String.lt_asymm hlt
+      simp only [hnlt, if_false]
+      rw [ih h2 h]
+
 end Hv.Data.AL
